@@ -15,8 +15,6 @@ import (
 // reference executor on SYMBOLIC buffer contents, and the final buffer is compared with the
 // WGSL meaning of the template (a Go closure written from the WGSL specification).
 
-const zzBufWords = 8
-
 // zzCompileAndRun compiles src and runs its entry point on the given initial buffer words
 // (binding 0 of group 0: array<i32|u32|f32, 8>). Returns the final buffer words.
 func zzCompileAndRun(src string, in []uint32, opts spirv.Options) ([]uint32, bool) {
@@ -51,14 +49,6 @@ func zzCompileAndRun(src string, in []uint32, opts spirv.Options) ([]uint32, boo
 	return zzspv.Flatten(buf, nil), true
 }
 
-func zzInputs() []uint32 {
-	in := make([]uint32, zzBufWords)
-	for i := range in {
-		in[i] = zz.U32(fmt.Sprintf("buf%d", i))
-	}
-	return in
-}
-
 func zzOptions() spirv.Options {
 	o := spirv.DefaultOptions()
 	switch zz.Choice("options", 3) {
@@ -68,45 +58,6 @@ func zzOptions() spirv.Options {
 		o.Version = spirv.Version1_5
 	}
 	return o
-}
-
-type zzBinTemplate struct {
-	op  string
-	i32 func(a, b int32) int32
-	u32 func(a, b uint32) uint32
-}
-
-func zzShiftAmount(b uint32) uint32 { return b & 31 }
-
-var zzBinTemplates = []zzBinTemplate{
-	{"+", func(a, b int32) int32 { return a + b }, func(a, b uint32) uint32 { return a + b }},
-	{"-", func(a, b int32) int32 { return a - b }, func(a, b uint32) uint32 { return a - b }},
-	{"*", func(a, b int32) int32 { return a * b }, func(a, b uint32) uint32 { return a * b }},
-	{"/", func(a, b int32) int32 {
-		if b == 0 || (a == -2147483648 && b == -1) {
-			return a
-		}
-		return a / b
-	}, func(a, b uint32) uint32 {
-		if b == 0 {
-			return a
-		}
-		return a / b
-	}},
-	{"%", func(a, b int32) int32 {
-		if b == 0 || (a == -2147483648 && b == -1) {
-			return 0
-		}
-		return a % b
-	}, func(a, b uint32) uint32 {
-		if b == 0 {
-			return 0
-		}
-		return a % b
-	}},
-	{"&", func(a, b int32) int32 { return a & b }, func(a, b uint32) uint32 { return a & b }},
-	{"|", func(a, b int32) int32 { return a | b }, func(a, b uint32) uint32 { return a | b }},
-	{"^", func(a, b int32) int32 { return a ^ b }, func(a, b uint32) uint32 { return a ^ b }},
 }
 
 // T1: buf[2] = buf[0] OP buf[1] for the integer arithmetic/bitwise operators on i32 and u32.
@@ -140,24 +91,6 @@ func ZZ_C01_tv_integer_binary() {
 	zz.Reach("end")
 }
 
-// ---- general template table: WGSL body + its meaning as a Go function on the buffer ----
-
-type zzTemplate struct {
-	name string
-	ty   string // element type of buf
-	decl string // module-scope declarations (helpers, structs)
-	body string // body of main
-	ref  func(b []uint32)
-}
-
-func zzI(x uint32) int32 { return int32(x) }
-func zzBool(c bool) uint32 {
-	if c {
-		return 1
-	}
-	return 0
-}
-
 func zzRunTemplate(t zzTemplate) {
 	src := fmt.Sprintf("@group(0) @binding(0) var<storage, read_write> buf: array<%s, 8>;\n%s\n@compute @workgroup_size(1) fn main() {\n%s\n}", t.ty, t.decl, t.body)
 	zz.Cell(t.name)
@@ -172,128 +105,6 @@ func zzRunTemplate(t zzTemplate) {
 		}
 	}
 	zz.Reach("end")
-}
-
-var zzTemplatesA = []zzTemplate{
-	{"shl-i32", "i32", "", "buf[2] = buf[0] << u32(buf[1]);", func(b []uint32) { b[2] = b[0] << (b[1] & 31) }},
-	{"shr-i32", "i32", "", "buf[2] = buf[0] >> u32(buf[1]);", func(b []uint32) { b[2] = uint32(zzI(b[0]) >> (b[1] & 31)) }},
-	{"shl-u32", "u32", "", "buf[2] = buf[0] << buf[1];", func(b []uint32) { b[2] = b[0] << (b[1] & 31) }},
-	{"shr-u32", "u32", "", "buf[2] = buf[0] >> buf[1];", func(b []uint32) { b[2] = b[0] >> (b[1] & 31) }},
-	{"neg", "i32", "", "buf[2] = -buf[0];", func(b []uint32) { b[2] = -b[0] }},
-	{"not", "u32", "", "buf[2] = ~buf[0];", func(b []uint32) { b[2] = ^b[0] }},
-	{"select-lt", "i32", "", "buf[2] = select(buf[0], buf[1], buf[0] < buf[1]);", func(b []uint32) {
-		if zzI(b[0]) < zzI(b[1]) {
-			b[2] = b[1]
-		} else {
-			b[2] = b[0]
-		}
-	}},
-	{"cmp-chain-u32", "u32", "", "buf[2] = u32(buf[0] <= buf[1]) + 2u * u32(buf[0] > buf[1]) + 4u * u32(buf[0] == buf[1]) + 8u * u32(buf[0] != buf[1]) + 16u * u32(buf[0] >= buf[1]);",
-		func(b []uint32) {
-			b[2] = zzBool(b[0] <= b[1]) + 2*zzBool(b[0] > b[1]) + 4*zzBool(b[0] == b[1]) + 8*zzBool(b[0] != b[1]) + 16*zzBool(b[0] >= b[1])
-		}},
-	{"cmp-chain-i32", "i32", "", "buf[2] = i32(buf[0] <= buf[1]) + 2 * i32(buf[0] > buf[1]) + 4 * i32(buf[0] < buf[1]) + 8 * i32(buf[0] >= buf[1]);",
-		func(b []uint32) {
-			x, y := zzI(b[0]), zzI(b[1])
-			b[2] = zzBool(x <= y) + 2*zzBool(x > y) + 4*zzBool(x < y) + 8*zzBool(x >= y)
-		}},
-	{"if-else", "i32", "", "if (buf[0] > 3) { buf[2] = buf[0] - buf[1]; } else { buf[3] = buf[1] - buf[0]; }", func(b []uint32) {
-		if zzI(b[0]) > 3 {
-			b[2] = b[0] - b[1]
-		} else {
-			b[3] = b[1] - b[0]
-		}
-	}},
-	{"short-circuit", "i32", "", "if (buf[0] > 0 && buf[1] / buf[0] > 2) { buf[2] = 1; } if (buf[0] == 0 || buf[1] % buf[0] == 0) { buf[3] = 1; }", func(b []uint32) {
-		x, y := zzI(b[0]), zzI(b[1])
-		div := func(p, q int32) int32 {
-			if q == 0 || (p == -2147483648 && q == -1) {
-				return p
-			}
-			return p / q
-		}
-		mod := func(p, q int32) int32 {
-			if q == 0 || (p == -2147483648 && q == -1) {
-				return 0
-			}
-			return p % q
-		}
-		if x > 0 && div(y, x) > 2 {
-			b[2] = 1
-		}
-		if x == 0 || mod(y, x) == 0 {
-			b[3] = 1
-		}
-	}},
-	{"switch", "i32", "", "switch buf[0] { case 1: { buf[2] = 10; } case 2, 3: { buf[2] = 20; } default: { buf[2] = buf[1]; } }", func(b []uint32) {
-		switch zzI(b[0]) {
-		case 1:
-			b[2] = 10
-		case 2, 3:
-			b[2] = 20
-		default:
-			b[2] = b[1]
-		}
-	}},
-	{"for-sum", "u32", "", "var s = 0u; for (var i = 0u; i < 3u; i++) { s += buf[i] * (i + 1u); } buf[4] = s;", func(b []uint32) {
-		b[4] = b[0]*1 + b[1]*2 + b[2]*3
-	}},
-	{"loop-break-continue", "u32", "", "var i = 0u; var s = 0u; loop { if (i >= 4u) { break; } if (buf[i] == 7u) { i++; continue; } s += buf[i]; i++; } buf[5] = s;", func(b []uint32) {
-		var s uint32
-		for i := 0; i < 4; i++ {
-			if b[i] != 7 {
-				s += b[i]
-			}
-		}
-		b[5] = s
-	}},
-	{"while-nested-var", "u32", "", "for (var i = 0u; i < 2u; i++) { var j = 0u; while (j < 1u) { j++; } var t = 1u; t += buf[i]; buf[4u + i] = t; }", func(b []uint32) {
-		b[4] = 1 + b[0]
-		b[5] = 1 + b[1]
-	}},
-	{"helper-call", "i32", "fn f(x: i32, y: i32) -> i32 { if (x < y) { return y - x; } return x * y; }", "buf[2] = f(buf[0], buf[1]) + f(buf[1], 2);", func(b []uint32) {
-		f := func(x, y int32) int32 {
-			if x < y {
-				return y - x
-			}
-			return x * y
-		}
-		b[2] = uint32(f(zzI(b[0]), zzI(b[1])) + f(zzI(b[1]), 2))
-	}},
-	{"pointer-arg", "u32", "fn bump(p: ptr<function, u32>, d: u32) { *p = *p * 2u + d; }", "var v = buf[0]; bump(&v, buf[1]); bump(&v, 1u); buf[2] = v;", func(b []uint32) {
-		v := b[0]
-		v = v*2 + b[1]
-		v = v*2 + 1
-		b[2] = v
-	}},
-	{"vec-swizzle", "i32", "", "let v = vec3<i32>(buf[0], buf[1], buf[2]); let w = v.zyx + vec3<i32>(1, 2, 3) * v.x; buf[3] = w.x; buf[4] = w.y; buf[5] = w.z;", func(b []uint32) {
-		x, y, z := b[0], b[1], b[2]
-		b[3] = z + 1*x
-		b[4] = y + 2*x
-		b[5] = x + 3*x
-	}},
-	{"struct-array-local", "u32", "struct S { a: u32, b: array<u32, 2> }", "var s: S; s.a = buf[0]; s.b[1] = buf[1]; s.b[0] = s.a + s.b[1]; let t = s; buf[2] = t.b[0]; buf[3] = t.b[1] ^ t.a;", func(b []uint32) {
-		b[2] = b[0] + b[1]
-		b[3] = b[1] ^ b[0]
-	}},
-	{"compound-assign", "i32", "", "var x = buf[0]; x += buf[1]; x *= 3; x -= buf[2]; x &= 0xff; x |= 0x100; x ^= buf[3]; x <<= 2u; buf[4] = x;", func(b []uint32) {
-		x := b[0]
-		x += b[1]
-		x *= 3
-		x -= b[2]
-		x &= 0xff
-		x |= 0x100
-		x ^= b[3]
-		x <<= 2
-		b[4] = x
-	}},
-	{"bitcast", "u32", "", "buf[2] = bitcast<u32>(bitcast<i32>(buf[0]) >> 1u) + u32(i32(buf[1]));", func(b []uint32) {
-		b[2] = uint32(zzI(b[0])>>1) + b[1]
-	}},
-	{"dynamic-index", "u32", "", "let i = buf[0] & 3u; buf[4u + (i & 1u)] = buf[i] + 5u;", func(b []uint32) {
-		i := b[0] & 3
-		b[4+(i&1)] = b[i] + 5
-	}},
 }
 
 func ZZ_C01_tv_templates() {
